@@ -73,6 +73,31 @@ func iterFailure(c *vt.Ctx, x *sut, s string) (fail *vt.Failure) {
 	case *orefafs.OrefaFS:
 		newIter = func(p string) iter { return avfs.NewPathIterator[*orefafs.OrefaFS](v, p) }
 	}
+	// An absolute path that is not clean: the parts are still exactly the separator-delimited
+	// pieces after the volume and the first separator (an empty piece between two adjacent
+	// separators is a part; nothing follows a trailing separator), and they reassemble the path.
+	raw := root + s
+	if rv := x.r.Volume(raw); raw != abs && x.r.IsAbs(raw) && len(rv) == volLen(x, raw) && len(raw) > len(rv) {
+		rawParts := strings.Split(raw[len(rv)+1:], sep)
+		if n := len(rawParts); n > 0 && rawParts[n-1] == "" {
+			rawParts = rawParts[:n-1]
+		}
+		var gotRaw []string
+		pi := newIter(raw)
+		for i := 0; pi.Next(); i++ {
+			if i > len(raw)+2 {
+				return mk(fmt.Sprintf("iteration over %q does not terminate", raw))
+			}
+			gotRaw = append(gotRaw, pi.Part())
+			if re := pi.Left() + pi.Part() + pi.Right(); re != raw || pi.Path() != raw {
+				return mk(fmt.Sprintf("over %q: Left+Part+Right = %q, Path = %q", raw, re, pi.Path()))
+			}
+		}
+		if strings.Join(gotRaw, "\x00") != strings.Join(rawParts, "\x00") || len(gotRaw) != len(rawParts) {
+			return mk(fmt.Sprintf("over %q: parts %q, want %q", raw, gotRaw, rawParts))
+		}
+		c.Label("iter:unclean")
+	}
 	pi := newIter(abs)
 	for i := 0; pi.Next(); i++ {
 		if i > len(abs)+2 {
